@@ -251,6 +251,9 @@ impl CaseSpace for OFrags {
     fn name(&self) -> String {
         format!("outstation-fragments-{}", self.tier)
     }
+    fn seeded(&self) -> bool {
+        true
+    }
     fn total(&self) -> usize {
         self.n_func() + self.gvs.len() * self.quals.len() * self.corners.len()
     }
@@ -483,6 +486,9 @@ impl CaseSpace for OStates {
     fn name(&self) -> String {
         "outstation-states".into()
     }
+    fn seeded(&self) -> bool {
+        true
+    }
     fn total(&self) -> usize {
         self.corners.len() * OSTATES.len() * self.hostile.len() * SEQ_MODES
     }
@@ -648,6 +654,9 @@ impl CaseSpace for OMax {
     fn name(&self) -> String {
         "outstation-maximal-controls".into()
     }
+    fn seeded(&self) -> bool {
+        true
+    }
     fn total(&self) -> usize {
         self.cases.len()
     }
@@ -705,6 +714,9 @@ struct OHuge;
 impl CaseSpace for OHuge {
     fn name(&self) -> String {
         "outstation-huge-control-request".into()
+    }
+    fn seeded(&self) -> bool {
+        true
     }
     fn total(&self) -> usize {
         4 * 2 * 2
@@ -867,6 +879,9 @@ impl CaseSpace for OStream {
     fn name(&self) -> String {
         format!("outstation-link-noise-depth{}", self.depth)
     }
+    fn seeded(&self) -> bool {
+        true
+    }
     fn total(&self) -> usize {
         let n = self.tokens.len();
         (1..=self.depth).map(|d| n.pow(d as u32)).sum::<usize>() * self.modes.len()
@@ -974,6 +989,9 @@ impl CaseSpace for OTransport {
     fn name(&self) -> String {
         format!("outstation-transport-segments-depth{}", self.depth)
     }
+    fn seeded(&self) -> bool {
+        true
+    }
     fn total(&self) -> usize {
         let n = self.alphabet.len();
         (1..=self.depth).map(|d| n.pow(d as u32)).sum::<usize>() * 2
@@ -1054,6 +1072,9 @@ fn build_oreplaced() -> OReplaced {
 impl CaseSpace for OReplaced {
     fn name(&self) -> String {
         "outstation-replaced-connection".into()
+    }
+    fn seeded(&self) -> bool {
+        true
     }
     fn total(&self) -> usize {
         self.prefixes.len() * 4 * 3
@@ -1284,6 +1305,9 @@ impl CaseSpace for MFrags {
     fn name(&self) -> String {
         format!("master-fragments-{}", self.tier)
     }
+    fn seeded(&self) -> bool {
+        true
+    }
     fn total(&self) -> usize {
         self.n_func() + self.gvs.len() * self.quals.len() * MCORNERS.len()
     }
@@ -1439,6 +1463,9 @@ impl CaseSpace for MStates {
     fn name(&self) -> String {
         "master-states".into()
     }
+    fn seeded(&self) -> bool {
+        true
+    }
     fn total(&self) -> usize {
         MCORNERS.len() * MSTATES.len() * self.hostile.len() * SEQ_MODES
     }
@@ -1531,6 +1558,9 @@ fn master_link_tokens() -> Vec<(String, Vec<u8>)> {
 impl CaseSpace for MStream {
     fn name(&self) -> String {
         format!("master-link-noise-depth{}", self.depth)
+    }
+    fn seeded(&self) -> bool {
+        true
     }
     fn total(&self) -> usize {
         let n = self.tokens.len();
